@@ -99,6 +99,19 @@ fn main() {
                 _ => std::process::exit(2),
             }
         }
+        "run-files" => {
+            // several explicit scenarios one after the other in THIS process (a worker history)
+            let mut code = 0;
+            for f in &args[2..] {
+                let sc: Scenario = serde_json::from_str(&std::fs::read_to_string(f).unwrap()).unwrap();
+                let r = hotswap::run(&sc);
+                if matches!(r.outcome, Some(Outcome::Violation { .. })) {
+                    code = 1;
+                }
+                emit(json!({"ev":"end","file":f,"result":r}));
+            }
+            std::process::exit(code);
+        }
         "shrink" => {
             let sc: Scenario = serde_json::from_str(&std::fs::read_to_string(&args[2]).unwrap()).unwrap();
             let (small, steps) = hotswap::shrink(&sc);
